@@ -11,7 +11,7 @@ from vlib import events, gen
 
 PROPERTY = "C13"
 LEVEL = "exploration"
-TIMEOUT = {"quick": 900, "thorough": 5400}
+TIMEOUT = {"quick": 1500, "thorough": 7200}
 RULE = (
     "recipes from vlib.gen.Gen (multi-output ops, rechunks, fused ops, array creation) x executors "
     "{single-threaded, threads (batch_size in {None,1,3}, compute_arrays_in_parallel on/off), processes (sampled)} "
